@@ -9,6 +9,7 @@ import (
 	"sort"
 	"strings"
 	"sync"
+	"sync/atomic"
 	"time"
 
 	"github.com/prometheus/prometheus/promql"
@@ -54,6 +55,12 @@ var faultShapes = []faultShape{
 	{Query: `histogram_quantile(0.9, h_bucket)`},
 	{Query: `histogram_quantile(0.9, rate(h_bucket[1m]))`},
 	{Query: `m0{a="x"} + on(a,b) m0`, Opt: "default"},
+	// a pinned selector below a vectorised aggregation: nothing asks it for its series before its first batch
+	{Query: `sum(m0 @ 3660 + on(a) group_left m1)`},
+	{Query: `count(m1 > bool on(a) group_right m0 @ end())`},
+	// included labels on a comparison that keeps the metric name: the output label sets are built from the many side's
+	{Query: `m0 > on(a) group_left(b) m1`},
+	{Query: `m1 < on(a) group_right(Z) m0`},
 	{Query: `sum by (a) (m0)`, Dist: true},
 	{Query: `m0`, Dist: true},
 	{Query: `max(sum by (a) (m0))`, Dist: true},
@@ -255,6 +262,11 @@ func (p *faultProp) Gen(seed uint64, tier string, i int) Case {
 		c.NParts = 2
 	}
 	c.Extra = map[string]any{"fault_kind": kind, "pick": float64(r.Uint64() % (1 << 50)), "shape": float64(shape)}
+	if p.id == "C14" && (kind == "cancel" || kind == "block") {
+		if api := Pick(r, []string{"", "", "cancel", "close", "cancel2", "early-cancel", "early-close"}); api != "" {
+			c.Extra["api"] = api
+		}
+	}
 	if tier == "thorough" {
 		c.Extra["seq"] = float64(slot / len(p.kinds))
 	}
@@ -277,6 +289,7 @@ type faultRun struct {
 
 var errCallsByKind = map[string][]string{
 	"err":           {"Querier", "Select", "SS.Next", "Seek", "Next"},
+	"err-deadline":  {"Querier", "Select", "SS.Next", "Seek", "Next"},
 	"panic-runtime": {"Querier", "Select", "SS.Next", "SS.At", "SS.Err", "Labels", "Iterator", "Seek", "Next", "At"},
 	"panic-error":   {"Querier", "Select", "SS.Next", "Labels", "Iterator", "Seek", "Next", "At"},
 	"panic-string":  {"Querier", "Select", "SS.Next", "SS.Err", "Labels", "Iterator", "Seek", "Next", "At"},
@@ -297,6 +310,28 @@ func execFaultedPart(c Case, faults []Fault, faultPart int) faultRun {
 	opts := c.Store
 	opts.Faults = faults
 	var stores []*Store
+	// api != "": the cancellation does not come through the context given to Exec but through the
+	// query object, from another goroutine: cancel | close | cancel2 (twice), optionally preceded by
+	// an "early-" Cancel() issued before Exec has started (a no-op that must not disarm later calls)
+	api, _ := c.Extra["api"].(string)
+	var qobj promql.Query
+	var qmu sync.Mutex
+	if api != "" {
+		ctx = WithQueryObserver(ctx, func(q promql.Query) {
+			if strings.HasPrefix(api, "early-") {
+				q.Cancel()
+			}
+			qmu.Lock()
+			qobj = q
+			qmu.Unlock()
+		})
+	}
+	var apiOnce sync.Once
+	var closeClaimed atomic.Bool
+	claimClose := func() bool { return closeClaimed.CompareAndSwap(false, true) }
+	if api != "" {
+		ctx = WithCloseClaim(ctx, claimClose)
+	}
 	mkStore := func(d Dataset) *Store {
 		so := opts
 		if faultPart >= 0 && len(stores) != faultPart {
@@ -306,6 +341,30 @@ func execFaultedPart(c Case, faults []Fault, faultPart int) faultRun {
 		st.CancelFn = func() {
 			// cancel first, mark afterwards: only callbacks issued after the cancellation is certainly
 			// visible are counted as post-cancel work (conservative for the promptness bound)
+			if api != "" {
+				apiOnce.Do(func() {
+					go func() {
+						qmu.Lock()
+						q := qobj
+						qmu.Unlock()
+						switch strings.TrimPrefix(api, "early-") {
+						case "close":
+							if claimClose() {
+								q.Close()
+							}
+						case "cancel2":
+							q.Cancel()
+							q.Cancel()
+						default:
+							q.Cancel()
+						}
+						for _, s := range stores {
+							s.MarkCancelled()
+						}
+					}()
+				})
+				return
+			}
 			cancel()
 			for _, s := range stores {
 				s.MarkCancelled()
@@ -650,7 +709,12 @@ func (p *faultProp) judgeCancel(c Case, kind string, fired bool, fr, cal faultRu
 		if !fired {
 			return
 		}
+		api, _ := c.Extra["api"].(string)
 		switch {
+		case res.Err == nil && strings.HasSuffix(api, "close"):
+			// Another goroutine closed the query while the result was being read: the memory of a
+			// fallback result is recycled by Close (reference behaviour), nothing to compare.
+			o.Count("completed_despite_close", 1)
 		case res.Err == nil:
 			if d := Compare(res, cal.Out.Res); d != nil {
 				o.Add("partial-success", fmt.Sprintf("%s: Exec returned success after cancellation with a result different from the full one: %s", desc, d.Detail))
@@ -766,7 +830,7 @@ func (p *faultProp) checkSequence(c Case) Outcome {
 
 func init() {
 	Register(&faultProp{id: "C13", kinds: []string{"panic-runtime", "panic-error", "panic-string"}})
-	Register(&faultProp{id: "C15", kinds: []string{"err"}})
+	Register(&faultProp{id: "C15", kinds: []string{"err", "err", "err-deadline"}})
 	Register(&faultProp{id: "C14", kinds: []string{"cancel", "block", "err", "panic-runtime", "none"}})
 	Register(&faultProp{id: "C17", kinds: []string{"none", "err", "panic-runtime", "cancel", "sequence"}})
 }
